@@ -41,6 +41,10 @@ class FStringRules:
             lineno=s1.lineno,
             col_offset=s1.lexpos,
         )
+        if is_raw:
+            # like p_string_literal: a raw literal is not $VAR/~ expanded
+            # when it is a subprocess argument
+            s.is_raw = True
         if "p" in prefix:
             p[0] = xonsh_call(
                 "__xonsh__.path_literal",
